@@ -359,6 +359,21 @@ func (v *Verifier) verifyFunc(ctr *Contract, fn *ssa.Function) (err error) {
 		lfr := *fr
 		lfr.env, lfr.envAddr = o.Env, o.EnvAddr
 		lenv := &Env{fr: &lfr, st: o.St, old: fr.entry, vars: vars, callRes: o.St.callRes, callArgs: o.St.callArgs}
+		// ghost frame: a function that declares modifies leaves every other ghost variable unchanged
+		if hasMod, listed := ghostModifies(ctr); hasMod && ctr.hasProp(v.prop) {
+			var cs []*Term
+			for _, g := range v.cs.Ghosts {
+				if listed[g.Name] {
+					continue
+				}
+				if a, ok := o.St.ghost[g.Name]; ok {
+					if b, ok := fr.entry.ghost[g.Name]; ok {
+						cs = append(cs, o.St.valueEq(a, b))
+					}
+				}
+			}
+			v.emit(fr, o.St, "frame", "frame/ghost", And(cs...), "ghost variables outside the modifies clause are unchanged")
+		}
 		for _, cl := range ctr.Clauses {
 			if cl.Kind == "plet" {
 				vars[cl.Var] = renv.eval(cl.Expr)
@@ -599,4 +614,23 @@ func (v *Verifier) checkPkgInits(pkgPath string) {
 			v.verifying = false
 		}()
 	}
+}
+
+func ghostModifies(ctr *Contract) (bool, map[string]bool) {
+	listed := map[string]bool{}
+	has := false
+	for _, cl := range ctr.Clauses {
+		if cl.Kind != "modifies" {
+			continue
+		}
+		has = true
+		for _, e := range cl.Exprs {
+			if se, ok := e.(*ast.SelectorExpr); ok {
+				if id, ok := se.X.(*ast.Ident); ok && id.Name == "ghost" {
+					listed[se.Sel.Name] = true
+				}
+			}
+		}
+	}
+	return has, listed
 }
